@@ -184,6 +184,12 @@ def sanAttrs (san : SanFirst) : Except Err (List (String × String)) :=
   | .dirName a => .ok a
   | _ => .error (regErr "tpm.san-no-directory-name")
 
+def tpmEkuCheck (eku : List String) : Except Err Unit :=
+  if tpmEkuRuleIsContains then rejectE (!(eku.contains "2.23.133.8.3")) (regErr "tpm.eku")
+  else do
+    let first ← headOr eku (nonlibErr "IndexError" "tpm.eku-empty")
+    rejectE (first != "2.23.133.8.3") (regErr "tpm.eku-first")
+
 /-- the AIK certificate requirements -/
 def tpmCertProfile (cert : CertView) : Except Err Unit := do
   rejectE (!cert.versionV3) (regErr "tpm.cert-version")
@@ -195,8 +201,8 @@ def tpmCertProfile (cert : CertView) : Except Err Unit := do
   rejectE (!strTruthy t.1 || !strTruthy t.2.1 || !strTruthy t.2.2) (regErr "tpm.san-attrs")
   rejectE (!(tpmManufacturers.contains (t.1.getD ""))) (regErr "tpm.vendor")
   let eku ← someOr cert.eku (regErr "tpm.eku-missing")
-  let first ← headOr eku (nonlibErr "IndexError" "tpm.eku-empty")
-  rejectE (first != "2.23.133.8.3") (regErr "tpm.eku-first")
+  -- "MUST contain tcg-kp-AIKCertificate": membership, or (older code, regenerated flag) only the first purpose is read
+  tpmEkuCheck eku
   let ca ← someOr cert.bcCa (regErr "tpm.bc-missing")
   rejectE ca (regErr "tpm.bc-ca")
 
